@@ -76,7 +76,7 @@ MANIFEST = {
 
 
 def run(ctx):
-    if ctx.tier == "thorough":
+    if True:  # both tiers: the -race build is cached by the Go build cache after the first time
         tag = hashlib.md5(pv.SRC.encode()).hexdigest()[:8]
         race = os.path.join(pv.BUILD, "pint-race-%s" % tag)
         rc, out = pv.sh(["go", "build", "-race", "-o", race, "./cmd/pint"], cwd=pv.SRC, env=pv.GOENV, timeout=1200)
